@@ -24,6 +24,9 @@ AR = "blocker::Blocker::apply_removeparam"
 def check(run):
     for cfg in run.cfgs("A", "B"):
         F = run.facts(cfg)
+        from analysis.guards import rule_visits_all as _rva
+        run.guard("C14.7.every-parameter", cfg, lambda: _rva(run, "C14.7.every-parameter", F, cfg, ['blocker::Blocker::apply_removeparam'],
+                  'Every parameter of the query is either kept verbatim or removed by a matching rule; every matching rule is applied', minimum=2))
         run.guard("C14.1.piece-provenance", cfg, lambda: rule_pieces(run, F, cfg))
         run.guard("C14.2.inverse-constants", cfg, lambda: rule_constants(run, F, cfg))
         run.guard("C14.3.removal-condition", cfg, lambda: rule_removal(run, F, cfg))
@@ -33,6 +36,8 @@ def check(run):
         b1 = run.borrow("C01", only=r"removeparam", why="a removeparam rule indexed under a token the URL lacks is never applied")
         run.guard("C14.via.C01.1.token-source", cfg, lambda: _C01.rule_removeparam_tokens(b1, F, cfg))
         run.guard("C14.via.C01.1.token-source/sources", cfg, lambda: _C01.rule_token_sources(b1, F, cfg))
+        b1c = run.borrow("C01", only=r"token-limit", why="a removeparam rule is filed under its parameter name: the parameter's token must be among the request tokens that are looked up (C01's premise of fewer than 127 URL tokens is inherited, not weakened)")
+        run.guard("C14.via.C01.4.token-boundary", cfg, lambda: _C01.rule_boundary(b1c, F, cfg))
         b2 = run.borrow("C03", only=r"IS_REMOVEPARAM|negated-types-removed-last",
                         why="removeparam rules default to document / subdocument / xhr requests")
         run.guard("C14.via.C03.8.implicit-types", cfg, lambda: _C03.rule_implicit_types(b2, F, cfg))
